@@ -114,7 +114,7 @@ def main():
             na.append({"property_id": pid, "reason": NOT_YET})
     m = {
         "version": 1,
-        "setup_cmd": "cd /verif/harness && CARGO_NET_OFFLINE=true cargo build --release --offline -p snowmc && cd /verif/harness-c16x && ./gen.sh && CARGO_NET_OFFLINE=true cargo build --release --offline",
+        "setup_cmd": "cd /verif/harness && CARGO_NET_OFFLINE=true cargo build --release --offline -p snowmc && CARGO_TARGET_DIR=target/hfs CARGO_NET_OFFLINE=true cargo build --release --offline -p snowmc --features hfs && cd /verif/harness-c16x && ./gen.sh && CARGO_NET_OFFLINE=true cargo build --release --offline",
         "hooks": {
             "guard": "cargo feature `verif-hooks` of snow (off by default)",
             "enable": "the harness crate depends on snow with features = [\"verif-hooks\"] (path dependency on /repo); nothing else sets it",
